@@ -68,7 +68,7 @@ def main() -> int:
         for pid in a.props.split(","):
             p = sh(["/venv/bin/python", "-m", "lvf.check", pid, "--tier", a.tier], cwd="/verif", env=cenv)
             out = p.stdout.replace("\r", "\n")
-            keys = sorted({ln.strip().split(":  ")[0][:200] for ln in out.splitlines() if ln.strip().startswith("key=")})
+            keys = sorted({ln.strip().split(": ")[0][:200] for ln in out.splitlines() if ln.strip().startswith("key=")})
             verdict = {0: "MISSED", 1: "DETECTED", 2: "ERROR"}.get(p.returncode, f"rc={p.returncode}")
             meta["checks"][pid] = {"verdict": verdict, "tier": a.tier, "keys": [k.split(": ")[0] for k in keys][:6]}
             print(f"check {pid}: {verdict} {[k.split(': ')[0] for k in keys][:3]}")
